@@ -29,6 +29,15 @@ CLAIMS = {
             "Action/asset requests with equal, older (by seconds and by one nanosecond), far-future, zero, negative and absent timestamps interleaved with deletions and departures.", "§7 C16"),
 }
 
+CLAIMS.update({
+    "C07": ("registry beliefs (every successful join resolves under the returned id/uuid and lists the participant), model of session lifetime, session_count gauge delta, live frame-worker tasks = live sessions, permutation search over concurrent joins/departures",
+            "Create/join/switch/leave cycles over <= 3 symbolic sessions with id reuse, plus concurrent blocks (join of an existing session against the last departure, two last departures, two creations, departure against creation) under random-walk and PCT schedules.", "§7 C07"),
+    "C09": ("deadlock states (a task waiting for a lock at quiescence), every request of a block answered exactly once, answers admissible under some order, server returns to its initial state after all clients close",
+            "2-16 connections in shared sessions with all modules and the production decorators; concurrent blocks of 2-3 requests (serializability search) and one block of 5-16 simultaneous requests (liveness) per run, under random-walk/PCT schedules with injected task stalls.", "§7 C09"),
+    "C10": ("history invariants over every id the server hands out (fresh session id among live sessions, participant/entity ids never reissued per session UUID, type ids <-> names bijective, asset ids unique) and a generator micro-world (no id outstanding twice)",
+            "Long create/end cycles, joins, entity/type/asset allocations, concurrent allocation blocks; in a quarter of the runs 1-8 tasks call New/Reuse on one SequentialIDGenerator under the simulated scheduler. Sequences are sampled, not enumerated.", "§7 C10"),
+})
+
 NA = {
 }
 
